@@ -1,5 +1,10 @@
 package main
 
+import (
+	"os"
+	"strings"
+)
+
 // Per-property swarm profiles: which actors are emphasised, which differential variants and
 // audits run, and what the evidence file says about what a non-trivial case is.
 
@@ -20,6 +25,17 @@ func baseProfile(name string) *Profile {
 }
 
 func profileFor(name string) *Profile {
+	p := profileFor0(name)
+	// debugging aid: report violations of further properties seen in this profile's runs
+	for _, x := range strings.Split(os.Getenv("VERIF_OWN_EXTRA"), ",") {
+		if x != "" {
+			p.Own[x] = true
+		}
+	}
+	return p
+}
+
+func profileFor0(name string) *Profile {
 	p := baseProfile(name)
 	switch name {
 	case "C01":
